@@ -11,7 +11,7 @@ BASE_NOTE = ("Trusted base: rustc nightly's type checker, MIR construction and I
              "on the decode paths of C09/C12/C13/C15/C16, the implicit slice/index bounds checks; overflow Asserts are out of scope.  The behavioural remainder named in coverage.not_decided is NOT claimed.")
 
 CLAIMS = {
-    "C02": ("durability/ordering protocol + error discipline (MUSTPASS/ORDER/GUARDED/ORIGIN over MIR CFGs)",
+    "C02": ("durability/ordering protocol + error discipline (MUSTPASS/ORDER/GUARDED/ORIGIN over MIR CFGs); re-evaluates the manifest reader/replay/rollover rules C13.1/5/6",
             "Decides the protocol shape that crash safety needs on every path: ack only after the covering fdatasync, SST "
             "sync before use, manifest write<flush<sync<rollover, link<manifest<install, log retired last, no storage error "
             "dropped or unwrapped, no truncating open of data files.  Does not enumerate crash states.", "§4 C02"),
@@ -67,12 +67,13 @@ CLAIMS = {
             "waits re-check their predicate inside one critical section, notifications cannot race a predicate check, the set of "
             "(lock held, condvar waited) pairs equals a triaged table, every awaited state change is announced, failed compactions "
             "release their claim.  Does not decide that a relieving compaction is always selectable, nor fairness.", "§4 C20"),
-    "C01": ("ORDER/GUARDED/ORIGIN over KeyValueStore::load, Version::load, open/recover; re-evaluates C06.1, C02.4, C06.4",
+    "C01": ("ORDER/GUARDED/ORIGIN over KeyValueStore::load, Version::load, open/recover; re-evaluates the sibling rules a point read depends on (C06.1/3/4/5, C02.4/5, C10.2, C05.1/5, C13.5, C08.4)",
             "Decides the lookup-precedence and freshness skeleton: mem before imm before tree with early exit on hit or tombstone; "
             "L0 newest-first before deeper levels; batches stamped with the fresh sequence number before use; publish after "
-            "durable; imm cleared after ingest; sequence numbers restart above every existing timestamp.  Does not decide "
+            "durable; imm cleared after ingest; sequence numbers restart above every existing timestamp; plus the snapshot/visibility, "
+            "bloom-accumulation, GC per-key-state, log-replay, manifest replay-order and orphan-scan rules of the sibling properties.  Does not decide "
             "compaction input closure, recovery level assignment, bloom/block search arithmetic.", "§4 C01"),
-    "C03": ("ORIGIN chains (pipeline composition), loop-body MUSTPASS (every file wrapped and merged), GUARDED (overlap skip), HELD (snapshot capture)",
+    "C03": ("ORIGIN chains (pipeline composition), loop-body MUSTPASS (every file wrapped and merged), GUARDED (overlap skip) plus the overlap predicate's decision table over (bound kinds x key order) read from MIR, HELD (snapshot capture); re-evaluates C11.1/4/5/6, C06.3/5, C05.5",
             "Decides pipeline composition: every scan is Bounds(Pruning(Merging(components))) with the captured timestamp and "
             "the caller's bounds, no component (mem, imm, any L0 file, any overlapping deeper file) can be left out, the snapshot "
             "is captured atomically, exhaustion is tested through key().  Does not decide ordering/exactly-once/seek landing.", "§4 C03"),
@@ -83,7 +84,7 @@ CLAIMS = {
             "tombstones and accepts an entry only after screening it against skip_key (seek and next alike); the bounds cursor "
             "re-checks both bounds after every step in both directions; the concatenating cursor leaves an exhausted child.  "
             "Does not decide the combinator equivalences for all inputs.", "§4 C11"),
-    "C07": ("who-frees analysis over Drop impls (GUARDED uniqueness test or pointee ownership), ESCAPE of the VersionRef, ORIGIN pipeline chains, ADT field-type facts",
+    "C07": ("who-frees analysis over Drop impls (GUARDED uniqueness test or pointee ownership), ESCAPE of the VersionRef, ORIGIN pipeline chains, ADT field-type facts; re-evaluates C06.3/5 (snapshot capture and visibility watermark)",
             "Decides the ownership/escape structure a memory-safe snapshot needs: shared memory is freed only by the Arc's pointee or "
             "behind a uniqueness test, iterators hold a clone of the list's Arc, the returned scan cursor owns the VersionRef that "
             "pins its files, every scan pipeline prunes at the captured timestamp, cursors have no borrowed fields.  Does not "
